@@ -41,7 +41,7 @@ EXPR_POOL = [
     "|v| match v { 1 => 2, _ => 3 }", "|v| if v > 1 { v } else { 0 }", "join! { a |> b }",
     "try_join! { Some(1) => |v| Some(v), Some(2) ~|> |v| v }", "\"|> => ?? ~\"", "'~'", "b\"<<<\"",
     "|a| a | 1", "|a| |b| a + b", "'l: loop { break 'l 1; }", "vec![1, 2, 3].into_iter()",
-    "x.y.z", "x[1..3].to_vec()", "(0..3)", "[1, 2][0]", "&mut acc", "*ptr", "!flag",
+    "x.y.z", "x[1..3].to_vec()", "(0..3)", "[1, 2][0]", "[f, g][1]", "[|v| v + 1, |v| v + 2][0]", "[a, b].len()", "[[1u8; 2]; 2]", "&mut acc", "*ptr", "!flag",
     "-1", "a as u64", "|v| v as u8 as u32", "async { 1 }", "async move { x.await }", "|v| async move { v }",
     "unsafe { g() }", "|v| { v }", "Box::new(|v| v) as Box<dyn Fn(u8) -> u8>", "<u8 as Into<u32>>::into",
     "r#\"->\"#", "1.0e3", "0x1f", "core::convert::identity", "|(a, b)| a", "|&v| v", "|v| v.0",
@@ -531,12 +531,17 @@ def total_cases(rng, pools, tier):
         add("I:wrap_and_unwrap", b0.initial + " |> >>> |> f <<< >>> |> g", cfgs)
         # non-identifier `let` pattern
         # (keywords: syn takes any word for the name of an identifier pattern — fixed finding: `let mut move = ..`)
-        pat = rng.choice(["(a, b)", "S { a }", "Some(x)", "[a, b]", "_", "move", "mut fn", "type", "mut match", "self", "ref mut loop"])
+        # (a name with a subpattern — fixed finding e698df0: `let x @ 1 = ..`)
+        pat = rng.choice(["(a, b)", "S { a }", "Some(x)", "[a, b]", "_", "move", "mut fn", "type", "mut match", "self", "ref mut loop", "x @ 1", "mut y @ Some(_)", "z @ _"])
         add("I:let_pattern", "let %s = %s |> f" % (pat, b0.initial), cfgs)
         # a `~` that defers nothing: in front of a `,`, of a handler, at the end (fixed finding 675249b: used to be dropped)
         tail_b = g.branch(2).render(lambda: " ")
         add("I:stray_tilde", rng.choice(["%s ~, %s" % (b0.render(lambda: " "), tail_b), "%s ~" % b0.render(lambda: " "), "%s ~ map => |a| a" % b0.render(lambda: " "),
                                           "%s, %s ~ then => h" % (tail_b, b0.render(lambda: " ")), "%s ~ ~ |> f" % b0.initial]), cfgs)
+        # a `~` in front of an operator look-alike inside an operand that is not complete yet (fixed finding 990902b: the `~`
+        # used to be dropped and the input accepted); `~` is no Rust operator, so no such operand is an expression
+        add("I:tilde_inside_operand", rng.choice(["%s |> |v| ~-> u8 { v }", "%s |> a < ~..b", "%s => |v: u8| ~-> Option<u8> { Some(v) } |> g", "%s ?> |v| v as ~-> u8 == 1",
+                                                  "%s |> foo::<u8 ~=> 2>", "%s -> |v| ~-> u8 { v } ~|> h", "%s |> |v| v < ~<| 3"]) % b0.initial, cfgs)
         # a `..` / `>.` operand that cannot stand after a dot (fixed finding 1cc49f7: used to panic inside a wrapper)
         bad = rng.choice(["{ 1 }", "|v| v", '"s"', "(a)", "[1]", "match x { _ => 1 }", "-1", "&x", "'l: { 2 }", "move || 1", "!b", "*p", "if c { a } else { b }"])
         dot = rng.choice(["..", ">."])
